@@ -15,7 +15,7 @@ Definition obs_ok (sp : spec) (o : Z * option Z) : bool :=
   (if ((t + 1) mod 60 =? 0)%Z then
      let m := ((t + 1) / 60)%Z in
      Bool.eqb (matches sp m) (oz_eqb r (Some m)) &&
-     Bool.eqb (due sp m) (match r with None => true | Some n => (n <=? m)%Z end)
+     Bool.eqb (due sp m) (match r with None => false | Some n => (n <=? m)%Z end)
    else true).
 
 (* (expression, verdict of dag.LoadYAML: 0 accepted / 1 error / 2 panic, observations) *)
